@@ -90,11 +90,16 @@ int main(int argc, char **argv) {
                 static const char *few[] = {"pgm<u64,1,1,float>", "pgm<f64,1,1,double>", "compressed<u64,1,1,float>", "bucketing<u64,1,3,0>", "eliasfano<u64,1,float>"};
                 bool sel = false; for (auto *n : few) if (!strcmp(n, e.name)) sel = true;
                 if (!sel) continue;
+                { Task t; t.cfg = c; t.kind = 7; tasks.push_back(t); }
                 for (long p : {2L, 20L}) {
                     for (long j = 0; j < p; ++j) { if (p == 20 && j > 1 && j < 18) continue; for (long len : {1L, 2L}) { if (j + len > p) continue; Task t; t.cfg = c; t.kind = 4; t.n = 32768; t.p = p; t.seam = j; t.rep = len; tasks.push_back(t); } }
                     for (long w = 0; w < 4096; w += 512) { Task t; t.cfg = c; t.kind = 1; t.n = 32768; t.p = p; t.seam = 0; t.word_lo = w + 37; t.word_hi = w + 45; tasks.push_back(t); }
                 }
                 continue;
+            }
+            // span family (every configuration, every integral key type): clusters spread over the whole domain of the key type
+            {
+                Task t; t.cfg = c; t.kind = 7; tasks.push_back(t);
             }
             if ((fam & 1) && wide) {
                 std::vector<long> ps = thorough ? std::vector<long>{2, 3, 4, 5, 7, 16, 19, 20} : std::vector<long>{2, 20};
@@ -144,8 +149,8 @@ int main(int argc, char **argv) {
                     for (long b = 0; b < ks::NUM_BLOCK_IDS; b += 3) { Task t; t.cfg = c; t.kind = 2; t.nblocks = 2; t.rep = rep; t.b0_lo = b; t.b0_hi = b + 3; tasks.push_back(t); }
             }
         }
-        fam_bounds = thorough ? "; seam family n=32768+{0,1,7}, chunks {2,3,4,5,7,16,19,20}, all 4096 window words at every seam (and at the first/last seam alone); blocks family: 1 block x rep {1,50,400}, 2 blocks x rep {1,20}; density family: all 1024 five-digit words x 300 clusters"
-                              : "; seam family n=32768, chunks {2,20}, all 4096 window words at every seam; blocks family: 1 block x rep {1,50}, 2 blocks x rep 1; density family: all 256 four-digit words of gap multipliers x 300 clusters (several segments per upper level), skewed variants with a 3x/30x jump, and 44000-cluster variants (plain, and 'chunk-tail' with a key-space jump 1/3 clusters before every chunk boundary over a zig-zag background) whose upper levels are built by the chunked builder; long-run family: a duplicate run from around a chunk start to around a chunk end, every start/end offset";
+        fam_bounds = thorough ? "; span family (clusters spread over the whole domain of the key type, 18 cluster counts x 9 end offsets, every configuration); seam family n=32768+{0,1,7}, chunks {2,3,4,5,7,16,19,20}, all 4096 window words at every seam (and at the first/last seam alone); blocks family: 1 block x rep {1,50,400}, 2 blocks x rep {1,20}; density family: all 1024 five-digit words x 300 clusters"
+                              : "; span family (clusters spread over the whole domain of the key type, 11 cluster counts x 9 end offsets, every configuration); seam family n=32768, chunks {2,20}, all 4096 window words at every seam; blocks family: 1 block x rep {1,50}, 2 blocks x rep 1; density family: all 256 four-digit words of gap multipliers x 300 clusters (several segments per upper level), skewed variants with a 3x/30x jump, and 44000-cluster variants (plain, and 'chunk-tail' with a key-space jump 1/3 clusters before every chunk boundary over a zig-zag background) whose upper levels are built by the chunked builder; long-run family: a duplicate run from around a chunk start to around a chunk end, every start/end offset";
     }
 
     if (asan_quick) std::stable_sort(tasks.begin(), tasks.end(), [](const Task &a, const Task &b) { return (a.kind != 0) > (b.kind != 0); });   // few large-input cases first
@@ -172,6 +177,14 @@ int main(int argc, char **argv) {
                 ks::FamilySpec s; s.kind = "density"; s.chunks = 1; s.rep = c; s.width = 1; s.word = c % 4;
                 e.family(run, cn, prop, s);
             }
+        } else if (t.kind == 7) {
+            for (long S : (thorough ? std::vector<long>{2, 3, 4, 5, 9, 17, 33, 63, 64, 65, 100, 127, 128, 129, 257, 1000, 4097, 20000} : std::vector<long>{2, 3, 5, 17, 63, 64, 65, 100, 257, 1000, 4097}))
+                for (long lo : {0L, 1L, 7L}) for (long hi : {0L, 1L, 7L}) {
+                    if (run.deadline_passed()) break;
+                    ks::FamilySpec s; s.kind = "span"; s.chunks = 1; s.rep = S; s.width = lo; s.word = hi;
+                    if (S == 65 && lo == 1 && hi == 0) run.sample(std::string("cfg=") + e.name + " family=" + s.str());
+                    e.family(run, cn, prop, s);
+                }
         } else if (t.kind == 5) {
             ks::FamilySpec s; s.kind = "chunktail"; s.chunks = t.p; s.rep = t.rep; s.word = t.word_lo; s.width = t.word_hi;
             if (t.p == 16 && t.word_lo == 2) run.sample(std::string("cfg=") + e.name + " family=" + s.str());
